@@ -10,18 +10,19 @@ P = {
  "C03": ("proof", "IsMonotonicInts, UnsafePermute (proved for all lengths), AP.T, Dense.T, Dense.UT and Dense.Transpose (rank-bounded: every rank 0..3 quick / 0..4 thorough, all extents and strides symbolic): a transposed view has shape/strides permuted by the axes, invalid or repeated axes yield an error, identity permutation is a no-op error, T followed by UT restores the access pattern, Transpose materialises exactly when a view is pending; the element-moving Transposer engine call is a trusted contract", "DESIGN.md 5 C03"),
  "C04": ("proof", "the view mechanism and the whole-tensor writes are proved: Dense.Slice returns a fresh tensor whose storage is the window [start,end) of the source's storage (same array, shifted offset, scaled by the element size) with the access pattern computed by AP.S, the source untouched and the mask windowed alike; array.zeroIter/memsetIter write exactly the offsets their iterator yields and leave every other storage position unchanged (unbounded, loop invariants with the ghost iterator sequence), array.Memset fills all; Dense.Zero/Memset on a view write only positions of the view's offset sequence; Clone/SafeT results share no metadata with the source (C19 contracts). The link FlatIterator = offset sequence of its access pattern, the byte-level fill array.Zero, copyDense and storage allocation are trusted contracts; element copies by Clone/Materialize are not under contract", "DESIGN.md 5 C04"),
  "C05": ("proof", "FlatIterator (Next/NextValidity/NextValid/NextInvalid/Reset/Done/SetReverse/SetForward and the specialised next routines) and FlatMaskedIterator proved against a ghost visit-order specification: each call yields the offset of the next coordinate in row-major order (reverse: descending), exactly size elements are yielded before the noop error, Reset restores the initial state", "DESIGN.md 5 C05"),
- "C06": ("proof", "every generated arithmetic and min/max kernel (1224 functions: vector-vector, vector-scalar, scalar-vector, incr, iterator, iterator-incr, recv, scalar helpers, and the vecf32/vecf64 bodies they delegate to) is proved to apply the specified operator to the specified operands at the specified index, with frame; iterator kernels via one-step (loop step) contracts", "DESIGN.md 5 C06"),
+ "C06": ("proof", "every generated arithmetic and min/max kernel (1224 functions incl. the vecf32/vecf64 bodies) is proved to apply the specified operator to the specified operands at the specified index, with frame (iterator kernels via one-step contracts); the dispatch methods E.* (plain, Iter, Incr, Recv, IterIncr) select the kernel of the element type with the promised operand roles; operand preparation chooses flat kernels only for flat same-order operands; the generated engine methods StdEng.{Add,Sub,Mul,Div,Pow,Mod} and their tensor-scalar variants discharge every kernel/dispatch precondition at its call site (lengths, aliasing, the iterator of the right tensor at position 0) for every option mode and both layouts paths, and preserve their operands", "DESIGN.md 0.4 and 5 C06"),
  "C07": ("other", "partial: the generated engine methods StdEng.{Add,Sub,Mul,Div,Pow,Mod} and the 14 unary methods are proved, for every option mode and both the flat and the iterator path, to return a (unsafe), the reuse/increment tensor (reuse, incr) or a fresh tensor with fresh storage (safe), to leave operand b unchanged in every mode and operand a unchanged except in unsafe mode, and to hand every kernel the data and the iterator of the right tensor, rewound to position 0; the dispatch methods E.*Incr/E.*Recv write only their destination (a known finding: the single-element path of E.*Incr overwrites a); operand preparation selects flat kernels only for flat same-order operands including the destination; reuseCheckShape copies the expected shape. Option parsing is trusted (the selected reuse tensor and flags are uninterpreted functions of the option list); delivered values per mode, comparison and *Scalar methods and linear algebra are not under contract", "DESIGN.md 0.4 and 5 C07"),
  "C08": ("proof", "Sum, Prod, Reduce (left folds) and Argmax/Argmin (first index of the extreme, strict comparison) kernels proved against recursive fold specifications for all lengths", "DESIGN.md 5 C08"),
+ "C09": ("other", "partial: the mapping from tensors to BLAS parameters is proved for StdEng.MatVecMul and StdEng.MatMul, all four float/complex element types, row- and column-major, plain and lazily transposed operands: the (trans, m, n, k, leading dimension, increment, operand order) handed to gemv/gemm address exactly the operands' logical matrices and vectors (index identity for all i,j quantified; the column-major call is recognised as the transposed reading C^T = B^T A^T with the intended factor order), and gonum's own argument preconditions hold. The BLAS routines themselves are trusted; operands must be contiguous and of one data order (strided operands, mixed orders and a single transposed column-major operand are observed defects stated as preconditions); Inner, Outer, TensorMul, Dot, Trace and the reuse/incr handling in dense_linalg.go are not under contract", "DESIGN.md 0.4 and 5 C09"),
  "C10": ("other", "partial: the shape calculators Shape.Concat and Shape.Repeat are proved (result shape per axis, operands unchanged, refusal of misfitting operands and bad axes, repeat counts copied not retained); the element-moving code (stacking, concatenation by slice-and-assign, repeat kernels) is engine glue over reflection and iterators and is not under contract", "DESIGN.md 5 C10"),
- "C11": ("proof", "every generated comparison kernel (1044 functions: bool and same-type results, vv/sv/vs, iterator variants) proved to deliver the truth value of Go's comparison of the specified operands in operand order, operands unchanged", "DESIGN.md 5 C11"),
+ "C11": ("proof", "every generated comparison kernel (1044 functions: bool and same-type results, vv/sv/vs, iterator variants) and every dispatch method is proved to deliver the truth value of Go's comparison of the specified operands in operand order, operands unchanged; the six generated engine methods StdEng.{Gt,Gte,Lt,Lte,ElEq,ElNe} are proved to write and return a in unsafe mode, the reuse tensor in reuse mode, and a fresh tensor of element type bool (or of a's type with AsSameType) in safe mode, to preserve both operands otherwise, and to hand every kernel the data and a rewound iterator of the right tensor. The *Scalar comparison methods are not under contract", "DESIGN.md 0.4 and 5 C11"),
  "C12": ("proof", "every generated unary kernel and map kernel (315 functions) proved against the specified scalar function per operation and element type (math/math32/cmplx routines as uninterpreted symbols named after the routine)", "DESIGN.md 5 C12"),
  "C13": ("proof", "Shape.S and AP.S proved against the same per-axis specification in rank-bounded mode (so the calculator agrees with execution); CalcStrides proved; CheckSlice/SliceDetails proved", "DESIGN.md 5 C13"),
  "C15": ("other", "partial: each generated masking predicate (MaskedEqual, NotEqual, Greater, GreaterEqual, Less, LessEqual, Inside, Outside; 13 element types each) is proved to mark exactly the elements satisfying Go's comparison - replacing a soft mask, or-ing into a hard one - with data unchanged (unbounded loop invariants); a slice carries the matching window of its source's mask (Dense.Slice); FlatMaskedIterator's validity stepping is proved (shared with C05); the validity-aware iterator kernels are checked under C06/C11/C12, not here. MaskedValues, mask reductions, run/edge finders and mask movement under transposition are not under contract", "DESIGN.md 5 C15"),
  "C16": ("other", "partial: the order flag algebra (HasSameOrder, setDataOrder, MakeDataOrder as bit-vector facts), column-major stride computation (CalcStridesColMajor, AP.calcStrides both orders), preservation of the order bits by AP.S and the contiguity flag it derives from the storage-outermost axis are proved; operations on column-major operands go through engine glue that is not under contract", "DESIGN.md 5 C16"),
  "C17": ("proof", "union of all schema instantiations: 2651 generated functions each satisfy the one type-generic contract schema of their family; structurally identical VCs across element types are solved once", "DESIGN.md 5 C17"),
  "C19": ("proof", "ownership discipline as per-function contracts over ghost state lib(array) in {caller, library, pooled}: T/SafeT/RollAxis/Shape.Repeat/reuseCheckShape/SetShape never retain, mutate or pool a caller slice; Clone/SafeT/AP.Clone/CloneTo/Shape.Clone results share no metadata array with their source; UT/Transpose/reuseCheckShape leave no reference to a pooled slice in a live tensor. Pools (BorrowInts/ReturnInts, borrowDense) and storage allocation are trusted contracts; histories are covered by each operation preserving the ownership invariant, not by exploring sequences", "DESIGN.md 5 C19"),
- "C20": ("other", "partial: the pure-Go divmod (build tag noasm) is proved against the contract the assembly version is trusted with (quotient, remainder, Euclid identity, ranges), and Itol is verified against that contract under both tag sets; BitMap index safety; the float32/float64 engines and the in-place transposition are not under contract", "DESIGN.md 5 C20"),
+ "C20": ("other", "partial: the pure-Go divmod (build tag noasm) is proved against the contract the assembly version is trusted with, and Itol and the BitMap index arithmetic are verified under both tag sets; Float64Engine.FMA pairs data and iterators like the default engine; Float32Engine.Add and Float64Engine.Add are proved to have the default engine's modes (unsafe/reuse/incr/safe destinations, operands preserved) and, for flat operands, the same values (reuse = a+b, incr = incr + (a+b), unsafe: a = a+b). The in-place transposition, FMAScalar and Inner are not under contract", "DESIGN.md 0.4 and 5 C20"),
 }
 checks = []
 for pid, (cat, text, ref) in sorted(P.items()):
